@@ -22,8 +22,12 @@ def check(run):
     tracecheck.replay_and_validate(run, lb, driver="ledger-replay", driver_args=["-ntx", "3", "-reopen"],
                                    trace_module="Trace_Ledger.tla", trace_cfg="Trace_Ledger.cfg", name="L")
     # state half
-    plans = [dict(num=70, ops=20, window=1, driver_args=["-reopen"])] if quick else \
-            [dict(num=700, ops=22, window=1, driver_args=["-reopen"]), dict(num=400, ops=22, window=0, driver_args=["-reopen"], maxb=9)]
+    # state half: (a) live vs reopened after every step, (b) the (j+1)-th storage write of an operation is made to
+    # fail (injected write error): the failed attempt must leave live and reopened answers equal to what the first
+    # j writes persisted, and the operation is then run again
+    plans = [dict(num=45, ops=20, window=1, driver_args=["-reopen"]), dict(num=45, ops=20, window=0, driver_args=["-faults", "30"])] if quick else \
+            [dict(num=700, ops=22, window=1, driver_args=["-reopen"]), dict(num=400, ops=22, window=0, driver_args=["-reopen"], maxb=9),
+             dict(num=700, ops=22, window=1, driver_args=["-faults", "30"]), dict(num=300, ops=26, window=0, maxb=9, driver_args=["-faults", "40"])]
     groups = xc.gen(run, plans)
     if not run.violations:
         xc.replay_validate(run, groups)
@@ -35,7 +39,8 @@ def check(run):
     run.cov["op_mix_ledger"] = dict(lst)
     run.assumptions += ["granularity of a failed Walk (R6): it may leave the state at a completed block boundary with the "
                         "rolled-back pool dropped; everything persisted must equal what is answered live",
-                        "injected storage write errors are exercised by C06's crash-point machinery (same cut points)"]
+                        "injected storage write errors: one failing write per faulted operation, at a seeded position among its first four writes"]
     run.finish(require={"failed_plays": (st["play:fail"], 10), "failed_walks": (st["walk:fail"], 3),
                         "refused_submissions": (st["submit:stale"], 15), "refused_ledger_submissions": (sum(v for k, v in lst.items() if k.endswith(":fail")), 20),
-                        "reopen_comparisons": (run.cov.get("trace_events", 0), 500)})
+                        "reopen_comparisons": (run.cov.get("trace_events", 0), 500),
+                        "injected_write_failures": (run.cov.get("real_faults", 0), 30)})
